@@ -3,6 +3,12 @@
 import json
 ALL = ["C%02d" % i for i in range(1, 21)]
 CHECKS = {
+ "C07": dict(level="exploration", technique="bounded-exhaustive enumeration of labelled graphs, Pruefer codes, labelled trees and Multicode streams against reference codecs written from formats.txt",
+   text="Every labelled graph with n<=6 (7 thorough), dense and sparse, through graph6 and Multicode (byte-for-byte against the reference encoders, decode of the reference string equals g) and sparse6 (the library's string must decode to g under the format's own decoder, which keeps loops so the special padding rule is enforced, and the library must decode the reference string and its own), with and without the header; structured graphs at n in {8,16,17,32,33,62,63,64,100} (4-byte size field, padding special cases, every stream alignment) and sparse6 at n=258047/258048; all n^(n-2) Pruefer codes for n<=7 (8) and all labelled trees for n<=6 (7) in both directions; every concatenation of <=3 Multicode records over the 12 graphs with n<=3.",
+   note="Trusted: the reference codecs (refcodec.go, 300 lines, from formats.txt and nauty's ntos6/stringtograph as recalled). Not covered: graph6 at the 8-byte size field (5 GB).", ref="§3 C07"),
+ "C08": dict(level="exploration", technique="bounded-exhaustive enumeration of byte strings over a reduced alphabet plus single-edit closure of valid encodings, crash- and hang-isolated",
+   text="About 1.4*10^5 (quick) / 7.7*10^5+ (thorough) strings per run: every string over {62,63,64,66,73,94,126,127} (+':' ';') up to length 6-7 (7-8), the header and all its proper prefixes in front of short strings, and every single-byte delete/duplicate/replace/truncate of valid encodings (all graphs n<=4, structured n up to 64). Each is decoded in worker subprocesses (address-space limit, deadline): no panic, no hang, error or a well-formed graph on the declared n whose re-encoding decodes to itself; strings without a valid size field must be rejected.",
+   note="Trusted: the reference size-field parser; worker isolation. Declared n > 4096 skipped as the property states.", ref="§3 C08"),
  "C12": dict(level="exploration", technique="bounded-exhaustive enumeration of word sets and Add histories with Myhill-Nerode (right-language) minimality oracle",
    text="Every subset of the 15 binary words of length <=3, of the 13 words of length <=2 over {0x00,'m',0xff} and every subset of size <=5 (6 thorough) of the 31 binary words of length <=4 is built; Lookup is compared on every probe string up to one letter longer over the alphabet plus a foreign letter (membership and lexicographic rank), NumberOfWords, the accepted language read from the node graph, and node count = number of distinct right languages. Every Add sequence of length <=6 (7) over the 7 words of length <=2 plus nil: error exactly for words not above the last accepted one, finished automaton = automaton of the accepted words.",
    note="Trusted: reflection walk of the node graph by type shape, right-language oracle. Callers do not modify slices passed to Add.", ref="§3 C12"),
